@@ -116,9 +116,17 @@ public:
                 m_hashes.resize(kbest);
                 m_tables.resize(cat_dims(kbest, tdims()));
 
+                // NB: the selected hashes must be stored sorted to be searchable (see ::nano::find)!
+                auto kbins = indices_t{kbest};
                 for (tensor_size_t fv = 0; fv < kbest; ++fv)
                 {
-                    const auto bin     = mapping[static_cast<size_t>(fv)].second;
+                    kbins(fv) = mapping[static_cast<size_t>(fv)].second;
+                }
+                std::sort(std::begin(kbins), std::end(kbins));
+
+                for (tensor_size_t fv = 0; fv < kbest; ++fv)
+                {
+                    const auto bin     = kbins(fv);
                     m_hashes(fv)       = hashes(bin);
                     m_tables.array(fv) = r1(bin) / x0(bin);
                 }
